@@ -80,19 +80,6 @@ func (r *rwRT) node(kind, name string) AV {
 
 func (r *rwRT) method(typ, name string) *ssa.Function { return r.w.Method(pathRw, typ, name) }
 
-func fnIs(fn *ssa.Function, names ...string) bool {
-	if fn == nil {
-		return false
-	}
-	n := fn.Name()
-	for _, x := range names {
-		if n == x {
-			return true
-		}
-	}
-	return false
-}
-
 func inRw(fn *ssa.Function) bool {
 	fn = bodyOf(fn)
 	if fn == nil {
